@@ -486,7 +486,8 @@ func (s *Store) writeSegments(newSS, base *segmentStack,
 	}
 
 	compactFooter = &Footer{
-		refs: 1,
+		refs:     1,
+		incarNum: newSS.incarNum,
 		SegmentLocs: []SegmentLoc{
 			{
 				Kind:       SegmentKindBasic,
